@@ -1011,7 +1011,7 @@ impl Display for SymbolKind {
             SymbolKind::Tuple(ref t, ref s) => write!(fmt, "{t}:{s}"),
             SymbolKind::Lookahead => write!(fmt, "@L"),
             SymbolKind::Lookbehind => write!(fmt, "@R"),
-            SymbolKind::Error => write!(fmt, "error"),
+            SymbolKind::Error => write!(fmt, "!"),
         }
     }
 }
